@@ -32,7 +32,7 @@ WORLD_OF = {
     "C20": "vmapfs",
 }
 
-RUN_TIMEOUT_S = 120          # a single run may never take that long
+RUN_TIMEOUT_S = 400          # a single run may never take that long
 
 
 def load_world(prop):
